@@ -989,6 +989,8 @@ def run(ctx):
         '(JSON keys config/log/metadata, HDF5 dataset metadata, the metadata entry (timestamp) of a serialized taxonomy '
         'tree, CSV comment lines)',
         'CPU code path only (torch is not installed)',
+        'chunk_size >= 1 and rows_at_a_time >= 1 in every generated configuration (with row_chunk_size 0 the real '
+        'AnnDataRowIterator yields empty chunks for ever; c04_same_chunks_same_result carries 1 <= c)',
         'the query-marker lookup is compared as a mapping (parent -> ordered gene list) AND by the order of its keys (the order '
         'of the entries of the query-marker JSON file; class ' + KEY_ORDER_CLASS + '): same key order, and same order of the '
         "keys of its 'log' entry, under opposite completion orders of the selection workers and under every hash seed, and the "
